@@ -245,6 +245,7 @@ type vFix struct {
 	db       *graphdb.ChannelGraph
 	vg       *graphdb.VersionedGraph
 	builder  *graph.Builder
+	hs       *vHookStore // pass-through wrapper around the graph store (write log, commit hook)
 	view     *vChainView
 	chain    *vChain
 	closer   *mockScidCloser
@@ -305,8 +306,12 @@ func (f *vFix) start(first bool) {
 	// A fresh store object over the same backend: all of the store's
 	// in-memory caches (reject cache, channel cache) start cold.
 	store := f.backend.open(t, f.storeOpts...)
+	if f.hs == nil {
+		f.hs = &vHookStore{}
+	}
+	f.hs.Store = store
 	var err error
-	f.db, err = graphdb.NewChannelGraph(store, graphdb.WithSyncGraphCachePopulation())
+	f.db, err = graphdb.NewChannelGraph(f.hs, graphdb.WithSyncGraphCachePopulation())
 	if err != nil {
 		t.Fatalf("channel graph: %v", err)
 	}
@@ -1168,9 +1173,10 @@ type vOp struct {
 
 // vEvent: either a gossip message or a graph maintenance event.
 type vEvent struct {
-	m   lnwire.Message
-	tag string
-	op  *vOp
+	m        lnwire.Message
+	tag      string
+	op       *vOp
+	scripted bool // part of a scripted set-up: always through the gossiper
 }
 
 type vGen struct {
@@ -1237,7 +1243,7 @@ func (g *vGen) setup() {
 		b := (a + 1 + r.intn(3)) % 4
 		d := vChanDef{n: g.sortedPair(a, b), b: [2]int{r.intn(4), r.intn(4)}}
 		d.envKind = vEnvKinds[r.intn(len(vEnvKinds))]
-		if (i == 0 && (r.intn(4) != 0 || g.kind == "burst" || g.kind == "restart")) ||
+		if (i == 0 && (r.intn(4) != 0 || g.kind == "burst" || g.kind == "restart" || g.kind == "interleave")) ||
 			(g.kind == "restart" && r.intn(2) == 0) {
 			d.envKind = "good"
 		}
@@ -2001,10 +2007,10 @@ func (g *vGen) expectedOwner(scid uint64, dir uint8) int {
 // verdicts are independent of the replay order iff, per (scid, direction),
 // at most one distinct update can be valid and every update that cannot be
 // valid carries a timestamp newer than the valid one:
-//   - updates no key of the case verifies are never valid: free;
 //   - a scid of a channel defined by the generator: one distinct update signed
-//     by the owner of the direction, any number signed by other keys provided
-//     their timestamps are newer than the owner's (announcements naming other
+//     by the owner of the direction, any number signed by other keys (or by no
+//     key of the case at all) provided their timestamps are newer than the
+//     owner's (announcements naming other
 //     node keys for that scid are held back meanwhile, see holdCA);
 //   - any other scid: byte-identical copies of ONE update.
 func (g *vGen) mayPark(u *lnwire.ChannelUpdate1) bool {
@@ -2012,10 +2018,7 @@ func (g *vGen) mayPark(u *lnwire.ChannelUpdate1) bool {
 	if g.c.chanKnown(s) {
 		return true
 	}
-	sg := g.signerOf(u)
-	if sg < 0 {
-		return true
-	}
+	sg := g.signerOf(u) // -1: no key of the case verifies it; still subject to the timestamp rule
 	dir := uint8(u.ChannelFlags & 1)
 	h := vMsgHash(u)
 	exp := g.expectedOwner(s, dir)
@@ -2063,9 +2066,6 @@ func (g *vGen) parked(u *lnwire.ChannelUpdate1) {
 	s := u.ShortChannelID.ToUint64()
 	dir := uint8(u.ChannelFlags & 1)
 	sg := g.signerOf(u)
-	if sg < 0 {
-		return
-	}
 	h := vMsgHash(u)
 	if g.pending[s] == nil {
 		g.pending[s] = map[uint8][]vParked{}
@@ -2366,6 +2366,7 @@ func (g *vGen) nextEvent(step int, kind string) vEvent {
 	if len(g.script) > 0 {
 		ev := g.script[0]()
 		g.script = g.script[1:]
+		ev.scripted = true
 		if ev.op != nil {
 			return ev
 		}
@@ -2409,6 +2410,9 @@ func (g *vGen) nextEvent(step int, kind string) vEvent {
 // ---------------------------------------------------------------------------
 // the test
 
+// case indices of the interleaving scenarios (independent of the case count)
+const vInterleaveBase = 100000
+
 type vPend struct {
 	step int
 	scid uint64
@@ -2433,6 +2437,20 @@ func TestVerifGossip(t *testing.T) {
 				t.Parallel()
 				row := vRunCase(t, r, ci)
 				out.emit(row)
+			})
+		}
+		// the interleaving scenarios of two updates for one channel direction
+		// through the two entry points: all of them, in every run
+		for sc := 0; sc < vNumInterleave; sc++ {
+			ci := vInterleaveBase + sc
+			if only >= 0 && ci != only {
+				continue
+			}
+			sc := sc
+			r := master.fork(uint64(ci))
+			t.Run(fmt.Sprintf("interleave%d", sc), func(t *testing.T) {
+				t.Parallel()
+				out.emit(vRunInterleave(t, r, ci, sc))
 			})
 		}
 	})
@@ -2546,6 +2564,7 @@ func vRunCase(t *testing.T, r *vrng, ci int) map[string]any {
 		peer := peers[pi]
 		if ev.op != nil {
 			// a graph maintenance event: no message, no verdict
+			f.hs.step.Store(int64(si))
 			desc := g.applyOp(ev.op)
 			desc["cid"] = fmt.Sprintf("op%d", si)
 			f.flush()
@@ -2567,6 +2586,34 @@ func vRunCase(t *testing.T, r *vrng, ci int) map[string]any {
 		}
 		m, tag := ev.m, ev.tag
 		g.sent = append(g.sent, m)
+		f.hs.step.Store(int64(si))
+		// the second entry point: every 7th free-choice channel update arrives
+		// as the payload of an onion failure (Builder.ApplyChannelUpdate)
+		// instead of through the gossiper
+		via := "gossip"
+		if u, ok := m.(*lnwire.ChannelUpdate1); ok && !ev.scripted && r.intn(7) == 0 {
+			via = "apply"
+			desc, orc := c.describe(m)
+			desc["cid"] = vMsgHash(m)
+			gbest := f.gossipBest()
+			verdict := f.sendVia("apply", u, peer)
+			f.flush()
+			snap := c.snapshot()
+			sj := fmt.Sprint(snap)
+			st := map[string]any{
+				"i": si, "restart": restarted, "tag": tag, "via": via,
+				"peer": c.kid(vPub33FromPub(peer.pk)), "now": now,
+				"m": desc, "orc": orc, "res": verdict, "resolved": nil, "best": gbest,
+				"ban": []uint64{f.banScore(vPub33FromPub(peers[0].pk)), f.banScore(vPub33FromPub(peers[1].pk)),
+					f.banScore(vPub33FromPub(peers[2].pk))},
+			}
+			if sj != prevJSON {
+				st["g"] = snap
+				prevJSON = sj
+			}
+			steps = append(steps, st)
+			continue
+		}
 		desc, orc := c.describe(m)
 		desc["cid"] = vMsgHash(m)
 
@@ -2668,7 +2715,7 @@ func vRunCase(t *testing.T, r *vrng, ci int) map[string]any {
 		"rebroadcast": int64(vRebroadcast / time.Second),
 		"prune":       int64(vPruneExpiry / time.Second),
 		"burst":       DefaultMaxChannelUpdateBurst, "backend": vBackendName, "restarts": f.restarts,
-		"template": tmpl, "pattern": pattern,
+		"template": tmpl, "pattern": pattern, "writes": f.hs.takeWrites(),
 		"steps": steps, "bcast": bc, "still_pending": left,
 	}
 }
